@@ -28,13 +28,17 @@ func VerifC18dContacted(n int) {
 	verifNetReset()
 	os.Setenv("HOME", "/home/u")
 	sshclient.VerifC17ResetVerdicts()
-	names := []string{"alpha", "beta", "gamma"}[:n]
+	names := []string{"alpha", "beta", "gamma", "delta", "eps", "zeta"}[:n]
 	list := ""
 	want := map[string]bool{}
 	for i, name := range names {
 		entry := name
 		addr := name + ":2222"
-		switch verifrt.Choose("port", 3) {
+		choice := 0
+		if i < 2 { // (the port forms of the first two entries are symbolic; more entries only add servers)
+			choice = verifrt.Choose("port", 3)
+		}
+		switch choice {
 		case 1:
 			entry, addr = name+":2223", name+":2223"
 		case 2:
@@ -58,7 +62,7 @@ func VerifC18dContacted(n int) {
 	verifrt.Assert(err == nil && c != nil, "NewTailClient failed")
 	ctx, cancel := context.WithCancel(context.Background())
 	go c.Start(ctx, nil)
-	verifrt.Sleep(7 * time.Second) // first contact, then reconnects every 2 s
+	verifrt.Sleep(9 * time.Second) // first contact, then reconnects every 2 s
 	cancel()
 	verifrt.Sleep(3 * time.Second)
 	count := map[string]int{}
